@@ -15,8 +15,9 @@ CONSTANTS
   RetireById = TRUE
   RelOnRefusal = TRUE
   CtxSelect = TRUE
+  CapRegroup = TRUE
 SPECIFICATION Spec
-INVARIANTS TypeOK OwnCopy OwnId_ OwnQuestion CtxPrivate ErrorsFromOwnFlight WaitersAttached ForgottenWhenDone
+INVARIANTS TypeOK CapacityPrivate OwnCopy OwnId_ OwnQuestion CtxPrivate ErrorsFromOwnFlight WaitersAttached ForgottenWhenDone
   LiveRegistered MapsInSync TrackedIsCurrent OneLivePerKey SlotAccounting HoldersRunning SlotsBalanced RefusalHoldsNothing
 PROPERTIES JoinsOnlyLive
 CHECK_DEADLOCK FALSE
